@@ -170,7 +170,9 @@ func runTour(cfg *RunCfg, sysName string, salt int64, keyMode int, tour []Step) 
 	}
 	steps := 0
 	for i, st := range tour {
-		if cfg.Reopen && ((st.Audit && (i == 0 || !tour[i-1].Audit)) || (i == len(tour)-1 && !st.Audit)) {
+		lastStep := !st.Audit && i > 0 && (i == len(tour)-1 || tour[i+1].Audit)
+		if (cfg.Opts.ReopenMid && lastStep) ||
+			(cfg.Reopen && ((st.Audit && (i == 0 || !tour[i-1].Audit)) || (i == len(tour)-1 && !st.Audit))) {
 			if err := sys.Reopen(); err != nil {
 				return &Mismatch{System: sysName, Tour: tour, At: i, Msgs: []string{"reopen failed: " + err.Error()}}, steps, nil
 			}
